@@ -24,6 +24,8 @@ TSTATES = ['NEW', 'TMGR_SCHEDULING_PENDING', 'TMGR_SCHEDULING', 'TMGR_STAGING_IN
            'TMGR_STAGING_OUTPUT_PENDING', 'TMGR_STAGING_OUTPUT', 'DONE', 'FAILED', 'CANCELED']
 LATE = TSTATES[11:]
 
+# the thread which handles a message: component work thread, control subscriber, state subscriber
+THREAD = {'submit': 'work', 'add': 'control', 'remove': 'control', 'pstates': 'state', 'tstates': 'state'}
 ERR = {'ValueError': 'EValue', 'RuntimeError': 'ERuntime', 'KeyError': 'EKey'}
 TM = {'mine': 'TMine', 'foreign': 'TForeign', 'none': 'TNone'}
 SRC = {'work': 'SWork', 'control_cb': 'SCtl', '_schedule_tasks': 'SSched'}
@@ -118,20 +120,23 @@ class C12(Prop):
     module = 'c12'
     title = 'Each task is bound to exactly one eligible pilot'
     props_files = ['Props/C12.v']
-    extra_targets = ['TmgrSched/Oracle.vo']
-    model_targets = ['TmgrSched/Oracle.vo']
+    extra_targets = ['TmgrSched/Oracle.vo', 'TmgrSched/Lin.vo']
+    model_targets = ['TmgrSched/Oracle.vo', 'TmgrSched/Lin.vo']
     translators = ['states']
-    header = ('From RP Require Import Gen.StatesTables States.Model States.Inst TmgrSched.Model TmgrSched.Oracle.\n'
+    header = ('From RP Require Import Gen.StatesTables States.Model States.Inst TmgrSched.Model TmgrSched.Oracle TmgrSched.Lin.\n'
               'Open Scope Z_scope.')
     clauses = ['bound_once', 'named_goes_to_named', 'only_added', 'waits_not_lost', 'sandbox_matches',
-               'rr_balance', 'bf_window_hwm', 'bf_used_zero', 'bound_only_to_eligible']
+               'rr_balance', 'bf_window_hwm', 'bf_used_zero', 'bound_only_to_eligible',
+               'lin_terminates', 'lin_exactly_once']
     sites = {'bound_once': 'TMGRSchedulingComponent.control_cb/work',
              'named_goes_to_named': 'TMGRSchedulingComponent._assign_pilot',
              'only_added': '_schedule_tasks', 'waits_not_lost': '_schedule_tasks',
              'sandbox_matches': 'TMGRSchedulingComponent._assign_pilot',
              'rr_balance': 'RoundRobin._schedule_tasks', 'bf_window_hwm': 'Backfilling._schedule_tasks',
              'bf_used_zero': 'Backfilling.update_tasks',
-             'bound_only_to_eligible': 'TMGRSchedulingComponent._update_pilot_states'}
+             'bound_only_to_eligible': 'TMGRSchedulingComponent._update_pilot_states',
+             'lin_terminates': 'scheduler locks (_pilots_lock / _wait_lock)',
+             'lin_exactly_once': 'concurrent entry points (work / control_cb / _base_state_cb)'}
     corr_name = ('TmgrSched.Model.run (step: work/control_cb/_base_state_cb over RoundRobin and Backfilling) vs '
                  'the real TMGRSchedulingComponent/RoundRobin/Backfilling methods')
     rule = ('corpus, then seed-determined random message histories (3-14 messages: task submissions with and '
@@ -139,7 +144,12 @@ class C12(Prop):
             'commands, pilot state and task state notifications) for both schedulers, backfilling with default '
             'and patched HWM/window constants; thorough adds all histories of <= 4 messages over a 10-letter '
             'alphabet (2 pilots, 3 tasks); directed blocks for stale pilot documents (final-state notification before the '
-            'add command; add / reported final / remove / re-add with the old document). non-trivial = >= 4 messages of >= 3 kinds with >= 1 task placed by '
+            'add command; add / reported final / remove / re-add with the old document). THREAD INTERLEAVINGS: '
+            'pairs of messages of two different scheduler threads (work | control | state subscriber) after a short '
+            'prefix; the first call is held before EVERY line it executes inside tmgr/scheduler/*.py, the second runs '
+            'to completion or up to a scheduler lock, then the first goes on (deterministic turn-taking); '
+            'every distinct outcome must equal the model outcome of A;B or B;A, terminate, and hand every task on '
+            'exactly once or keep it waiting. non-trivial = >= 4 messages of >= 3 kinds with >= 1 task placed by '
             'the scheduling algorithm and >= 1 task forwarded')
     trusted = [
         'translator translators/states.py (ast -> Gen/StatesTables.v; fail closed): pilot/task state values',
@@ -148,7 +158,12 @@ class C12(Prop):
         'wrapped by a call-through recorder (caller frame name = call site), real Session sandbox getters on a '
         'Session built without __init__ with get_resource_config stubbed; every message handled synchronously; '
         'events, exception and a snapshot of _pilots/_early/_pids/_idx/_wait_pool compared inside Coq by vm_compute',
-        'modelled, not verified: locks/threads (messages are handled one at a time), zmq delivery, the '
+        'interleaving driver harness/c12_inter.py: two real threads, sys.settrace line tracer on the code objects of '
+        'tmgr/scheduler/{base,round_robin,backfilling}.py for the held thread, the scheduler\'s three locks replaced by '
+        'reentrant locks of the same semantics which report a waiting acquire (so blocking and deadlock are seen '
+        'without time-outs); granularity = source lines of the scheduler (not bytecodes), pairs only (no three-thread '
+        'interleavings), one hold point per run',
+        'modelled, not verified: preemption inside a line / inside library calls (messages are handled one at a time in the model), zmq delivery, the '
         'staging-dependency wait list (unused by the code), cancel_tasks (a no-op in the code), profiling/logging; '
         'States.Model.pilot_progress for _pilot_state_progress (tied by C14/C06 correspondence and here)',
     ]
@@ -278,10 +293,82 @@ class C12(Prop):
                 ops.append(['ignored'])
         return {'kind': kind, 'consts': consts, 'ops': ops}
 
+    def gen_inter(self, rng, kind):
+        """a short sequential prefix, then two messages for two threads (A is held at every line)"""
+        nxt = [1]
+
+        def tasks(n, named=0, cores=None):
+            out = []
+            for _ in range(n):
+                out.append([nxt[0], named, 1, cores or rng.choice([1, 1, 2])])
+                nxt[0] += 1
+            return out
+        prefix, added, unn = [], [], []
+        tmpl = rng.choice(['finish', 'finish', 'activate', 'add', 'add', 'two-submits', 'remove', 'random', 'random'])
+        act = 'PMGR_ACTIVE'
+        if tmpl == 'random':
+            base = self.gen(rng, kind)
+            prefix = [o for o in base['ops'] if o[0] != 'ignored'][:rng.randint(1, 6)]
+            for o in prefix:
+                if o[0] == 'submit':
+                    unn += [t[0] for t in o[1] if not t[1]]
+                    nxt[0] = max(nxt[0], max(t[0] for t in o[1]) + 1)
+                if o[0] == 'add':
+                    added += [p for p, _s, _c in o[2] if p not in added]
+            nxt[0] = max(nxt[0], 30)
+            pool = [['submit', tasks(rng.randint(1, 2), rng.choice([0, 0, 1]))],
+                    ['add', 'mine', [[rng.randint(1, 3), act, rng.choice([1, 2, 4])]]],
+                    ['remove', 'mine', [rng.randint(1, 3)]],
+                    ['pstates', [[rng.randint(1, 3), rng.choice([act, 'DONE', 'PMGR_LAUNCHING'])]]],
+                    ['tstates', [[u, 'DONE', -1] for u in (rng.sample(unn, min(len(unn), 3)) or [99])]]]
+            a, b = rng.sample(pool, 2)
+            while THREAD[a[0]] == THREAD[b[0]]:
+                a, b = rng.sample(pool, 2)
+        else:
+            cores = rng.choice([1, 1, 2])
+            if tmpl in ('finish', 'two-submits', 'remove'):
+                prefix.append(['add', 'mine', [[1, act, cores]]])
+                ts = tasks(rng.randint(1, 4))
+                prefix.append(['submit', ts])
+                unn = [t[0] for t in ts]
+            elif tmpl == 'activate':
+                prefix.append(['add', 'mine', [[1, rng.choice(['NEW', 'PMGR_LAUNCHING']), cores]]])
+                ts = tasks(rng.randint(1, 3))
+                prefix.append(['submit', ts])
+            else:
+                ts = tasks(rng.randint(0, 3))
+                if ts:
+                    prefix.append(['submit', ts])
+                if rng.random() < 0.4:
+                    prefix.append(['submit', tasks(1, named=1)])
+            sub = ['submit', tasks(rng.randint(1, 2), named=rng.choice([0, 0, 0, 1]))]
+            if tmpl == 'finish':
+                a = ['tstates', [[u, rng.choice(['DONE', 'AGENT_STAGING_OUTPUT_PENDING']), -1]
+                                 for u in rng.sample(unn, rng.randint(1, len(unn)))]]
+                b = sub
+            elif tmpl == 'activate':
+                a, b = ['pstates', [[1, act]]], sub
+            elif tmpl == 'add':
+                a, b = ['add', 'mine', [[1, act, cores]]], rng.choice([sub, sub, ['pstates', [[1, act]]]])
+            elif tmpl == 'two-submits':       # two passes: a finishing task frees the pilot while work() brings more
+                a, b = ['tstates', [[unn[0], 'DONE', -1]]], ['submit', tasks(rng.randint(2, 3))]
+            else:
+                a, b = ['remove', 'mine', [1]], rng.choice([sub, ['tstates', [[unn[0], 'DONE', -1]]]])
+            assert THREAD[a[0]] != THREAD[b[0]]
+            if rng.random() < 0.35:
+                a, b = b, a
+        consts = None
+        if kind == 'bf' and rng.random() < 0.25:
+            consts = [rng.choice([100, 200, 300]), 4, 4]
+        return {'kind': kind, 'consts': consts, 'ops': prefix, 'inter': [a, b]}
+
     def cases(self, rng, tier):
         n = 1000 if tier == 'quick' else 8000
         for i in range(n):
             yield self.gen(rng, 'rr' if i % 2 == 0 else 'bf', big=(tier != 'quick'))
+        rng2 = __import__('random').Random(rng.random())
+        for i in range(36 if tier == 'quick' else 400):
+            yield self.gen_inter(rng2, 'bf' if i % 3 else 'rr')
         if tier == 'thorough':
             def alpha(nxt, subm):
                 return [lambda: ['submit', [[nxt[0], 0, 1, 2]]],
@@ -411,74 +498,84 @@ class C12(Prop):
         finally:
             bfm._HWM, bfm._BF_START_VAL, bfm._BF_STOP_VAL = self.bf_orig
 
+    def _prepare(self, comp, o, live, rps, events, st):
+        """build the message of op `o` (task dicts are registered in / read from `live` NOW) and return
+        the call that hands it to the real entry point"""
+        k = o[0]
+        if k == 'submit':
+            ts = []
+            for i, (u, p, r, c) in enumerate(o[1]):
+                t = {'uid': tuid(u), 'type': 'task', 'state': rps.TMGR_SCHEDULING_PENDING,
+                     'description': {'ranks': r, 'cores_per_rank': c, 'pilot': puid(p) if p else None,
+                                     'sandbox': None}}
+                if p:
+                    t['pilot'] = puid(p)
+                elif i % 3 == 1:
+                    t['pilot'] = None
+                elif i % 3 == 2:
+                    t['pilot'] = ''
+                live[u] = t
+                ts.append(t)
+            return lambda: comp.work(ts)
+        if k == 'add':
+            pl = [{'uid': puid(p), 'type': 'pilot', 'state': s,
+                   'pilot_sandbox': 'file://localhost/explicit/%s/' % puid(p) if p % 2 else '',
+                   'description': {'cores': c, 'resource': 'local.localhost', 'access_schema': 'local'}}
+                  for p, s, c in o[2]]
+            tm = {'mine': 'tmgr.0000', 'foreign': 'tmgr.0001', 'none': None}[o[1]]
+            return lambda: comp.control_cb('control_pubsub', {'cmd': 'add_pilots', 'arg': {'pilots': pl, 'tmgr': tm}})
+        if k == 'remove':
+            tm = {'mine': 'tmgr.0000', 'foreign': 'tmgr.0001', 'none': None}[o[1]]
+            return lambda: comp.control_cb('control_pubsub', {'cmd': 'remove_pilots',
+                                                              'arg': {'pids': [puid(p) for p in o[2]], 'tmgr': tm}})
+        if k == 'pstates':
+            arg = [{'type': 'pilot', 'uid': puid(p), 'state': s} for p, s in o[1]]
+            if len(arg) == 1:
+                arg = arg[0]
+            return lambda: comp._base_state_cb('state_pubsub', {'cmd': 'update', 'arg': arg})
+        if k == 'tstates':
+            arg, ntf = [], []
+            for u, s, ov in o[1]:
+                t = dict(live.get(u) or {'uid': tuid(u), 'type': 'task',
+                                         'description': {'ranks': 1, 'cores_per_rank': 1}})
+                t['state'] = s
+                if ov == 0:
+                    t['pilot'] = ''
+                elif ov > 0:
+                    t['pilot'] = puid(ov)
+                arg.append(t)
+                ntf.append([u, max(0, num(t.get('pilot') or ''))])
+
+            def call():
+                events.append(['ntf', ntf])
+                comp._base_state_cb('state_pubsub', {'cmd': 'state_update' if len(arg) % 2 else 'update', 'arg': arg})
+            return call
+        st['nign'] = st.get('nign', 0) + 1
+        nign = st['nign']
+        if nign % 3 == 1:
+            uids = list(map(tuid, live))
+            return lambda: comp.control_cb('control_pubsub', {'cmd': 'cancel_tasks',
+                                                              'arg': {'uids': uids, 'tmgr': 'tmgr.0000'}})
+        if nign % 3 == 2:
+            return lambda: comp.control_cb('control_pubsub', {'cmd': 'heartbeat', 'arg': {'uid': 'x'}})
+        return lambda: comp._base_state_cb('state_pubsub', {'cmd': 'something', 'arg': [
+            {'type': 'pilot', 'uid': puid(1), 'state': 'DONE'}]})
+
     def _run(self, case, consts, rps):
+        if case.get('inter'):
+            from . import c12_inter
+            return c12_inter.run_inter(self, case, consts, rps)
         events = []
         self.sb = []
         comp = self._mk(case['kind'], events)
         live = {}
         per_op = []
-        nign = 0
+        st = {}
         for o in case['ops']:
             del events[:]
-            k = o[0]
             exc = None
             try:
-                if k == 'submit':
-                    ts = []
-                    for i, (u, p, r, c) in enumerate(o[1]):
-                        t = {'uid': tuid(u), 'type': 'task', 'state': rps.TMGR_SCHEDULING_PENDING,
-                             'description': {'ranks': r, 'cores_per_rank': c, 'pilot': puid(p) if p else None,
-                                             'sandbox': None}}
-                        if p:
-                            t['pilot'] = puid(p)
-                        elif i % 3 == 1:
-                            t['pilot'] = None
-                        elif i % 3 == 2:
-                            t['pilot'] = ''
-                        live[u] = t
-                        ts.append(t)
-                    comp.work(ts)
-                elif k == 'add':
-                    pl = [{'uid': puid(p), 'type': 'pilot', 'state': s,
-                           'pilot_sandbox': 'file://localhost/explicit/%s/' % puid(p) if p % 2 else '',
-                           'description': {'cores': c, 'resource': 'local.localhost', 'access_schema': 'local'}}
-                          for p, s, c in o[2]]
-                    tm = {'mine': 'tmgr.0000', 'foreign': 'tmgr.0001', 'none': None}[o[1]]
-                    comp.control_cb('control_pubsub', {'cmd': 'add_pilots', 'arg': {'pilots': pl, 'tmgr': tm}})
-                elif k == 'remove':
-                    tm = {'mine': 'tmgr.0000', 'foreign': 'tmgr.0001', 'none': None}[o[1]]
-                    comp.control_cb('control_pubsub', {'cmd': 'remove_pilots',
-                                                       'arg': {'pids': [puid(p) for p in o[2]], 'tmgr': tm}})
-                elif k == 'pstates':
-                    arg = [{'type': 'pilot', 'uid': puid(p), 'state': s} for p, s in o[1]]
-                    if len(arg) == 1:
-                        arg = arg[0]
-                    comp._base_state_cb('state_pubsub', {'cmd': 'update', 'arg': arg})
-                elif k == 'tstates':
-                    arg, ntf = [], []
-                    for u, s, ov in o[1]:
-                        t = dict(live.get(u) or {'uid': tuid(u), 'type': 'task',
-                                                 'description': {'ranks': 1, 'cores_per_rank': 1}})
-                        t['state'] = s
-                        if ov == 0:
-                            t['pilot'] = ''
-                        elif ov > 0:
-                            t['pilot'] = puid(ov)
-                        arg.append(t)
-                        ntf.append([u, max(0, num(t.get('pilot') or ''))])
-                    events.append(['ntf', ntf])
-                    comp._base_state_cb('state_pubsub', {'cmd': 'state_update' if len(arg) % 2 else 'update',
-                                                         'arg': arg})
-                else:
-                    nign += 1
-                    if nign % 3 == 1:
-                        comp.control_cb('control_pubsub', {'cmd': 'cancel_tasks',
-                                                           'arg': {'uids': list(map(tuid, live)), 'tmgr': 'tmgr.0000'}})
-                    elif nign % 3 == 2:
-                        comp.control_cb('control_pubsub', {'cmd': 'heartbeat', 'arg': {'uid': 'x'}})
-                    else:
-                        comp._base_state_cb('state_pubsub', {'cmd': 'something', 'arg': [
-                            {'type': 'pilot', 'uid': puid(1), 'state': 'DONE'}]})
+                self._prepare(comp, o, live, rps, events, st)()
             except Exception as e:                       # noqa
                 exc = ERR.get(type(e).__name__, 'EOther')
             per_op.append({'ev': [list(e) for e in events], 'err': exc,
@@ -490,16 +587,40 @@ class C12(Prop):
         c = case.get('consts') or obs['consts']
         return '(mkCfg %s %s %s %s)' % ('RR' if case['kind'] == 'rr' else 'BF', z(c[0]), z(c[1]), z(c[2]))
 
+    def _inter_row(self, case, obs):
+        outs = []
+        for o in obs['inter']:
+            st = 0 if o['status'] == 'ok' else (1 if o['status'].startswith('deadlock') else 2)
+            outs.append('mkOut %d %s %s %s %s %s %s' % (
+                st, uidpid(o['fwd']), 'true' if o['bad'] else 'false',
+                '(Some %s)' % o['errs'][0] if o['errs'][0] else 'None',
+                '(Some %s)' % o['errs'][1] if o['errs'][1] else 'None',
+                snap_lit(o['snap']), lst(z(u) for u in o['allfwd'])))
+        a, b = case['inter']
+        return '(c12_lin_row %s %s %s %s %s)' % (self._cfg(case, obs), ops_lit(case['ops']),
+                                                '(%s)' % ops_lit([a])[1:-1], '(%s)' % ops_lit([b])[1:-1], lst(outs))
+
     def coq_row(self, case, obs):
+        if case.get('inter'):
+            return self._inter_row(case, obs)
         sb = lst('(%s, %s, %s, %s, %s)' % tuple(z(x) for x in s) for s in obs['sb'])
         return '(c12_row %s %s %s %s)' % (self._cfg(case, obs), ops_lit(case['ops']), obs_lit(obs), sb)
 
     def model_show(self, case):
         c = case.get('consts') or [200, 4, 4]
+        if case.get('inter'):
+            cf = '(mkCfg %s %s %s %s)' % ('RR' if case['kind'] == 'rr' else 'BF', z(c[0]), z(c[1]), z(c[2]))
+            a, b = ['(%s)' % ops_lit([o])[1:-1] for o in case['inter']]
+            s0 = '(fst (run_st %s st0 %s))' % (cf, ops_lit(case['ops']))
+            sh = ('(let \'(f, bad, e1, e2, s) := seq2 %s %s %s %s in (f, bad, e1, e2, snap_of s))')
+            return '(%s, %s)' % (sh % (cf, s0, a, b), sh % (cf, s0, b, a))
         return 'run (mkCfg %s %s %s %s) st0 %s' % ('RR' if case['kind'] == 'rr' else 'BF', z(c[0]), z(c[1]),
                                                  z(c[2]), ops_lit(case['ops']))
 
     def nontrivial(self, case, obs):
+        if case.get('inter'):
+            # the second thread ran between two lines of the first one and both did something
+            return any(o['status'] == 'ok' and o['b_ran'] == 'whole' for o in obs['inter']) and obs['nlines'] > 20
         kinds = set(o[0] for o in case['ops'])
         evs = [e for r in obs['per_op'] for e in r['ev']]
         sched = any(e[0] == 'asg' and e[1] == 'SSched' for e in evs)
@@ -512,12 +633,43 @@ class C12(Prop):
             # the first task-state message that update_tasks left with an exception
             errs = [r['err'] for o, r in zip(case['ops'], obs['per_op']) if o[0] == 'tstates' and r['err']]
             cond = 'update_tasks-raised-' + errs[0] if errs else 'no-exception'
+        elif obs and clause in ('lin_terminates', 'lin_exactly_once'):
+            kinds = sorted(o[0] for o in case['inter'])
+            bad = [o['status'].split(':')[0] for o in obs['inter'] if o['status'] != 'ok']
+            if clause == 'lin_terminates':
+                cond = (bad[0] if bad else 'ok') + ('-with-add_pilots' if 'add' in kinds else '')
+            else:
+                cond = 'pair'
         elif clause == 'bound_once':
             adds = [p for o in case['ops'] if o[0] == 'add' for p, _, _ in o[2]]
             cond = 'pilot-added-twice' if len(adds) != len(set(adds)) else 'no-readd'
         return '%s:%s:%s:%s' % (clause, self.sites.get(clause, '?'), case['kind'], cond)
 
     def shrink(self, case):
+        if case.get('inter'):
+            ops = case['ops']
+            for i in range(len(ops)):
+                yield dict(case, ops=ops[:i] + ops[i + 1:])
+            for which in (0, 1):
+                o = case['inter'][which]
+                idx = {'submit': 1, 'add': 2, 'remove': 2, 'pstates': 1, 'tstates': 1}.get(o[0])
+                if idx is not None and len(o[idx]) > 1:
+                    for j in range(len(o[idx])):
+                        o2 = list(o)
+                        o2[idx] = o[idx][:j] + o[idx][j + 1:]
+                        pair = list(case['inter'])
+                        pair[which] = o2
+                        yield dict(case, inter=pair)
+            for i, o in enumerate(ops):
+                idx = {'submit': 1, 'add': 2, 'remove': 2, 'pstates': 1, 'tstates': 1}.get(o[0])
+                if idx is not None and len(o[idx]) > 1:
+                    for j in range(len(o[idx])):
+                        o2 = list(o)
+                        o2[idx] = o[idx][:j] + o[idx][j + 1:]
+                        yield dict(case, ops=ops[:i] + [o2] + ops[i + 1:])
+            if case.get('consts'):
+                yield dict(case, consts=None)
+            return
         ops = case['ops']
         for i in range(len(ops)):
             yield dict(case, ops=ops[:i] + ops[i + 1:])
@@ -535,8 +687,19 @@ class C12(Prop):
     def distribution(self, results):
         kinds, opk, errs, n = {}, {}, {}, 0
         sched = fwd = 0
+        inter = dict(cases=0, hold_points=0, second_thread_ran_whole=0, outcomes=0, pairs={})
         for r in results:
             c = r['case']
+            if c.get('inter'):
+                inter['cases'] += 1
+                pk = '%s|%s' % (c['inter'][0][0], c['inter'][1][0])
+                inter['pairs'][pk] = inter['pairs'].get(pk, 0) + 1
+                if r['obs']:
+                    inter['hold_points'] += r['obs']['nlines']
+                    inter['outcomes'] += len(r['obs']['inter'])
+                    inter['second_thread_ran_whole'] += sum(len(o['ks']) for o in r['obs']['inter']
+                                                            if o['b_ran'] == 'whole')
+                continue
             kinds[c['kind']] = kinds.get(c['kind'], 0) + 1
             for o in c['ops']:
                 opk[o[0]] = opk.get(o[0], 0) + 1
@@ -552,7 +715,7 @@ class C12(Prop):
                             fwd += len(e[2])
         return dict(schedulers=kinds, messages=opk, mean_messages=round(n / max(1, len(results)), 2),
                     messages_raising=errs, scheduler_placements=sched, tasks_forwarded=fwd,
-                    patched_constants=sum(1 for r in results if r['case'].get('consts')))
+                    patched_constants=sum(1 for r in results if r['case'].get('consts')), interleavings=inter)
 
 
 PROP = C12()
